@@ -1259,6 +1259,8 @@ class Interp:
             return base[idx]
         if isinstance(base, Ref):
             return base.frame.vars[base.name]
+        if isinstance(base, ArrBox):
+            base = base.v           # reading an element of an array that is represented by one generic element
         if isinstance(base, (Node, int, Fraction)):
             # numpy scalar-or-array polymorphism: indexing a symbolic "array" value -> same symbolic element
             h = self.hooks.get('index_scalar')
@@ -1460,6 +1462,11 @@ class Interp:
         raise AnalysisError(f'{fr.mod.where(e)}: call of unsupported callee `{ast.unparse(e.func)[:60]}` ({type(f).__name__})')
 
     def builtin(self, name, args, kwargs, e, fr):
+        if args and isinstance(args[0], ArrBox) and name.split('.')[-1] in ('asarray', 'asanyarray', 'ascontiguousarray', 'atleast_1d', 'ravel', 'squeeze', 'reshape'):
+            # numpy hands the very same array back (a view of it) unless a conversion is needed: no copy for an array that already has the requested type
+            dt_ = kwargs.get('dtype', args[1] if len(args) > 1 and name.split('.')[-1].startswith('as') else None)
+            if dt_ is None or 'complex' not in str(getattr(dt_, 'name', dt_)):
+                return args[0]
         if any(isinstance(a_, ArrBox) for a_ in args) and name.split('.')[-1] not in ('type', 'isinstance', 'shape', 'ones_like', 'zeros_like', 'len'):
             args = [unbox(a_) for a_ in args]
         nm = name.split('.')[-1]
